@@ -16,7 +16,7 @@ checks = {
    "Closures are tagged with the bind generation that created them; a run of a stale generation in or after the round in which the bind's input changed, a value from an invalid node, or a wrong Invalidated sequence is a violation. Claims restricted to binds needed throughout the round (DESIGN 3.5).",
    "trusted: reference model; orphaned inner nodes are outside the claim"),
  "C04": (EXPL, "4 C04", "stateful PBT / fuzz-style search for panics and aborts in release-like and debug-assertion builds, worker processes isolate aborts",
-   "The broadest well-formed language (all profiles merged) is executed in both build configurations with every engine call under catch_unwind and workers as separate processes; any panic or abort is a violation keyed by message and location. Absence is not shown.",
+   "The broadest well-formed language (all profiles merged) is executed in both build configurations with every engine call under catch_unwind and workers as separate processes; any panic or abort is a violation keyed by message and location; the language includes variables created by bind closures (top scope and var_current_scope), handlers that re-enter their own observer, expert-node and per-key-operator histories, and read-only probes (graphviz dump, stats, handle counts) at arbitrary points. Absence is not shown.",
    "well-formedness guards of DESIGN 3.5; bounded sizes; macros crate and nightly features not exercised"),
  "C05": (EXPL, "4 C05", "stateful PBT with invocation log checked against the model's dependency cone (at call, at return, and through both choices of every bind)",
    "Every logged invocation must belong to a node reachable from a live observer through the dependency structure at call or at return; with no live observer nothing may run and stats().recomputed must not move.",
@@ -40,7 +40,7 @@ checks = {
    "Every closure owns a clone of a canary Rc and every node is tracked by a WeakIncr; after each stabilise all nodes that the model's strong-reachability (handles, observers, closures, bind right-hand sides) cannot reach must have strong_count 0; after the drawn final drop order nothing may remain; no drop may panic (worker abort = violation) and the remaining graph's values must stay correct. Both build configurations.",
    "reachability is over-approximated (sound); vars of vars, vectors of vars, vars of incrs, self-binds and expert nodes come from a second generator with end-state and one-stabilise leak oracles only"),
  "C13": ("fault_enumeration", "4 C13", "fault enumeration: a panic injected at every individual user-function invocation of generated programs, then observer reads / re-stabilise / drops checked",
-   "Each generated program is re-executed once per user-function invocation it performs, with a panic injected there and caught by the caller; afterwards reads must fail (or, for a handler fault, equal the fully propagated model values), a further stabilise must refuse without invoking anything, and dropping everything must not panic or abort (worker processes detect aborts). Both build configurations.",
+   "Each generated program is re-executed once per user-function invocation it performs, with a panic injected there and caught by the caller; afterwards reads must fail (or, for a handler fault, equal the fully propagated model values) -- also for observers created after the panic and after the caller dropped the state before its observers --, a further stabilise must refuse without invoking anything, and dropping everything must not panic or abort (worker processes detect aborts). Both build configurations.",
    "faults are injected only in functions the harness supplies (node functions, bind closures, boxed/fn cutoffs, handlers); bounded program sizes"),
  "C14": (EXPL, "4 C14", "stateful PBT of expert-API constructions (dynamic sum, bind/join) against reference computations, with callback coherence asserted inside the recompute function",
    "Generated histories change the dependency multiset from a child's function (shared, duplicate, bind-created and invalid children), request make_stale/invalidate, switch binds, observe/unobserve; the value, the documented validity rule, callback coherence at every recompute and the recompute count are compared with a model. Both build configurations.",
@@ -53,7 +53,7 @@ checks = {
    "small key/value domain (8 keys, 4 values); pure, invertible user functions"),
  "C16": (EXPL, "4 C16", "property-based differential testing of incr_mapi_/incr_filter_mapi_ (+cutoff variants) with a family of per-key graph builders against the per-key definition",
    "Per-key functions: pure map, map2 with an outer var, bind on the value, input-ignoring, one shared node for all keys; histories of map edits, outer var writes and observe/unobserve; output compared after every observed stabilise; panics are violations; both build configurations.",
-   "small key/value domain; equal-only cutoffs"),
+   "small key/value domain; cutoff variants: none, PartialEq, fn equality, fn same-parity (reference semantics for swallowed changes), Never"),
  "C17": (EXPL, "4 C17", "PBT with instrumented user functions: per stabilise the set of (role,key) calls must lie within the keys that changed since the operator last processed its input",
    "Every user function logs (role,key); the model keeps the input the operator last processed (also across unobserved periods) and allows calls only for differing keys (all keys on initialisation), at most once per key and role; builders only for added keys.",
    "incr_map/incr_filter_map receive only values: call count bound instead of key set"),
@@ -62,7 +62,7 @@ checks = {
    "MergeOnceWith is crate-private and reached only through incr_merge"),
  "C20": (EXPL, "4 C20", "stateful PBT of memoised calls from top level and from (nested) bind closures with pointer-identity and call-counter oracles under a conservative reference-certainty model",
    "While a reference to the node of a key certainly exists, a call must return the identical node without invoking the function; once certainly none exists and a stabilise ran, the next call must invoke it exactly once; nodes obtained inside a bind closure and observed from outside must stay valid and correct across bind re-runs and drops.",
-   "weak_memoize_fn is called at top level; uncertain reference states make no claim"),
+   "weak_memoize_fn is called at top level or inside a bind closure; calls are also made through within_scope with a (valid) scope handed out by a bind closure; uncertain reference states make no claim"),
  "C09": (EXPL, "4 C09", "stateful PBT with a per-subscription notification model (Initialised once, Changed iff changed, one Invalidated, nothing after the end)",
    "Every delivered update is logged with the value the observer returns at that moment and the values of all other observers; per-subscription sequences are compared with the model for each round.",
    "handler order across subscriptions unspecified: oracles are per subscription"),
